@@ -24,10 +24,18 @@ CHECKS = {
             "closure BFS (state space closes: every stream length, every weak order pattern incl. both zeros) of the real selection methods x sort/max/min/arg reference for lengths 1..5 (7 thorough); macro-step exploration of <=2/3 constant/ramp segments for every length 1..=254",
             "The algorithms only compare and copy, so a closed exploration over an alphabet of n+1 ordered values plus both zeros covers every behaviour class of a length-n window for streams of any length; outputs are compared exactly (up to the sign of zero), SMM's exported window must hold the last n inputs.",
             "Trusted: the order-pattern lifting argument, the sort-based reference. Lengths above 7 are covered by segment streams only."),
+    "C09": ("DESIGN.md §6 C09",
+            "total enumeration of every API form (over, call, apply, new_over, new_apply, into_fn, new_fn, with_history, with_last_value, mixed) x every chunking (all cut sets incl. empty chunks) x every input sequence up to length 4 (5 thorough) for every method and small parameter set, against a twin driven by next only; depth-bounded product exploration (original, identically built twin, clone driven down a different branch, clone continuing) with peek compared after every step; the same for every indicator incl. config/instance over, init_fn, into_fn and the Dyn over",
+            "Every way of cutting every short stream into chunks is enumerated, and BFS/DFS branching itself exercises clone independence at every state; outputs are compared bitwise.",
+            "Trusted: element-by-element next as the oracle. Sequences of pairs do not implement Sequence, so VWMA/Cross* only have the functional and wrapper forms; methods taking dyn OHLCV only into_fn/with_history/with_last_value."),
     "C11": ("DESIGN.md §6 C11",
             "total enumeration of set(name, text) over every public parameter (= key of the serde-JSON form) x every value text of its type (all 256 integers, float list, source names, 15 kinds x lengths, booleans, garbage) and every foreign name, on static and dynamic configs; depth-bounded exploration of every default indicator comparing result shape and static-vs-dyn results on every stream",
             "Generic, no per-indicator code: the parameter list is derived from the config's own serialized form, so a setter wired to the wrong field, a missing setter, a setter that mutates on error, a wrong size() or a diverging Dyn impl is seen for every indicator and every parameter.",
             "Trusted: serde-JSON key set == public parameters (checked by reading the structs); example::Example (private fields, no serde on its instance) gets the shape check only."),
+    "C13": ("DESIGN.md §6 C13",
+            "exploration of every method (small parameter sets, all rotation phases, warm-up, windowless, even/odd lengths) and every indicator (default, small-period and MA-kind configurations): at EVERY explored state the instance is serialized and restored, and original and restored instance are explored together over all continuations of depth 3 with bitwise comparison; adversarial SMM/Window forms; config round trips",
+            "A snapshot point is a state of the explored graph, so snapshot-at-every-state followed by product exploration covers every (snapshot point, short continuation) pair within the bounds; hand-written Deserialize impls (Window, SMM) are additionally fed malformed forms.",
+            "Trusted: serde_json with float_roundtrip as the self-describing format. States holding NaN/inf are exempt (JSON cannot carry them; counted)."),
     "C14": ("DESIGN.md §6 C14",
             "closure BFS of Cross/CrossAbove/CrossUnder (+ swapped series, binary()) over all pairs of 6 values incl. both zeros and the smallest subnormal; closure BFS of the three reversal detectors for (left,right) in {1,2}^2 (+{1,2,3} thorough) over a 3-symbol alphabet, running through the whole range of the position counter; deviation-bounded streams of 600 steps for boundary (quick) / ~12 000 (thorough) (left,right) pairs",
             "The crossing detectors' state is the last difference, the reversal detectors' state a bounded window plus counters, so the product space closes and the verdict holds for streams of every length over the alphabet, including far beyond PeriodType::MAX.",
